@@ -30,3 +30,13 @@ na("C44", PURE + "ComputeEvictionList(peers) is one stateless call over a classi
 na("C45", PURE + "Generated codecs: encode/decode with no map fields, so not even iteration order enters.")
 na("C47", PURE + "Genesis parser: validation of one file.")
 na("C48", PURE + "Bech32/hex converters: encode/decode.")
+
+TRIE_NOTE = "Trusts: the harness reference map, SimDisk (no write faults, clean restarts only), the Go map-free determinism of the world (selftest). Injected read errors: the failing step is only checked for 'no wrong data'; a trie whose mutation failed with an I/O error is abandoned and rebuilt from its last committed root, as a caller would."
+claim("C01", "triesim", SIM + "step-by-step refinement against a map; leaf enumeration against commit snapshots; read-error injection",
+      "Seeded histories of update/delete/get/commit/recreate/leaves/restart over a structured key pool on the real trie + storage manager + LRU + SimDisk; every Get and every leaf enumeration is compared with the reference map. Sampling, not proof.", TRIE_NOTE)
+claim("C02", "triesim", SIM + "differential twins: same map through different histories/configurations must give the same root hash",
+      "After commits and at the end the root is compared with a canonical fresh trie of the same map, and twin steps rebuild the map through permuted inserts, detours, overwrites, intermediate commits/recreates, other maxTrieLevelInMemory and a rebuild from disk. Sampling, not proof.", TRIE_NOTE)
+claim("C03", "triesim", SIM + "recreate from any earlier committed root (warm, cold cache, after restart) then continue and compare with the canonical twin",
+      "Every committed (root, map) is remembered; recreate/restart/cold-check steps must give that root and contents and further mutations must keep matching the canonical root. Sampling, not proof.", TRIE_NOTE)
+claim("C04", "triesim", SIM + "prover/verifier over a faulty proof channel: completeness, soundness and no-panic oracles",
+      "Proofs generated from tries recreated from (faulty) disk for present and absent keys are verified for the same key, for related keys (misdelivery) and after drop/dup/swap/truncate/corrupt/foreign-root faults; accepted => key present; panics are violations. Sampling, not proof.", TRIE_NOTE)
